@@ -57,6 +57,28 @@ NEEDS = {
     "RC16b": ("C16", "array-descriptor cache mutex released between check and use", "concurrent reconstruction evicting the cached ancestor (timing)"),
     "RC18a": ("C18", "write_object returns early when the digest is in the LRU object cache (outcome depends on MELDA_DATA_CACHE_CAP)", "unstage, identical content again, commit; reopened replica"),
     "RC18b": ("C18", "leaf cache becomes a HashSet: merge order follows hash order", "three or more concurrent versions of one array"),
+    "RC01a": ("C01", "refresh re-examines blocked blocks only when new packs arrived", "a child block loaded before its pack-less parent (deletion-only commit), the parent arriving in a refresh that brings no pack"),
+    "RC01b": ("C01", "pack scanner treats a quote as escaped when the previous byte is a backslash", "a string ending in a backslash"),
+    "RC03a": ("C03", "write_object skips objects still in the LRU object cache", "update, unstage, identical content again before 16 other objects evict it, commit, reopen"),
+    "RC03b": ("C03", "block validation forgets revisions whose digest is a character code", "a commit containing a pure character object {\"#\": \"68\"}; only a reopened replica is affected (patch rebased onto fix 326db30)"),
+    "RC05a": ("C05", "same-index tie-break compares digest then tail instead of the identifier text", "one digest a strict prefix of the other ('d' vs 'd4...'): concurrent delete and update"),
+    "RC05b": ("C05", "unstage skips validate() when every cached leaf is still present", "staged resolution markers only: resolve_as(current winner) then unstage"),
+    "RC06a": ("C06", "merge fold skips a leaf whose digest equals the base's", "two branches whose last edit scripts are byte-identical (both prepend the same element / pop the head)"),
+    "RC06b": ("C06", "merged order cached per (base revision, leaf count)", "read with >=2 leaves, a further edit on a branch that keeps losing, read again on the same replica"),
+    "RC07a": ("C07", "partial_cmp compares fields while cmp compares text; resolve_as seals all but the LAST leaf of the ordered set", "deletion vs update at the same index where the update's digest starts 'd' + digit; resolving in favour of the current winner"),
+    "RC07b": ("C07", "the 'chosen leaf is a deletion' case moved into update_object and recognised by value", "an array descriptor whose chosen leaf is a deletion (one replica removed the list, another edited it)"),
+    "RC08a": ("C08", "meld write-locks the destination adapter for the whole transfer", "two Melda handles on the same adapter, the other knowing an item this one has not loaded"),
+    "RC08b": ("C08", "refresh step 4 as `if let Status::Blocked = delta.read()...status { delta.write() }`", "a second refresh while a blocked block exists"),
+    "RC09a": ("C09", "check_delta checks object digests only for blocks that list packs", "a pack-less block (retry after a failed block write) reaching another storage without the orphan pack (meld interrupted)"),
+    "RC09b": ("C09", "DataStorage::pack indexes the new pack before writing it", "a failed pack write followed by unstage + identical redo, or > 16 staged objects"),
+    "RC12a": ("C12", "resolve_as takes the 'is a deletion' flag from the object read back", "an array descriptor in conflict whose winner is a deletion, then commit (auto-resolution resurrects the list)"),
+    "RC12b": ("C12", "pack offsets off by one for every object but the first", "re-reading after commit an object evicted from the object cache (cap 1-3, or > 16 objects)"),
+    "RC15a": ("C15", "DataStorage::pack indexes the new pack before writing it", "failed pack write, then export / unstage / replay: the replayed stage has records but no objects"),
+    "RC15b": ("C15", "replay_stage inserts creation records through entry().or_insert_with", "a staged creation record for an identifier that is still known at replay time (create_object on an existing id; replay onto a newer state)"),
+    "RC17a": ("C17", "Deflate wrapper fills ranged reads with a single read()", "a slice ending beyond what the first 32 KiB of compressed input inflate to"),
+    "RC17b": ("C17", "Deflate wrapper remembers keys as stored before the backend write", "a refused backend write followed by a retry of the same key through the same wrapper"),
+    "RC19a": ("C19", "an unanchored '1-<digest>' pattern tried first in Revision::from", "an index of two or more digits ending in 1 (11, 21, ...)"),
+    "RC19b": ("C19", "stage_full_snapshot derives the new identifier from the first diff leaf instead of the winner", "stage_full_snapshot while the array has two or more live leaves"),
     "X-F1revert": ("C08", "revert of fix 1f69feb (finding F1)", "commit with a flattened array in conflict"),
 }
 
